@@ -173,6 +173,14 @@ def apply_payload(m, mtype, pl, rng, history, depth):
 
 
 def apply_envelope(e, d):
+    only = d.pop("only", None)
+    if only is not None:
+        # "pristine but one field": the description is completed from the freshly constructed envelope
+        for f in ("sustain_point", "loop_start_point", "loop_end_point", "enable", "sustain", "loop", "ctl_index", "gain_pct", "velocity"):
+            if f != only:
+                d[f] = getattr(e, f)
+        if only != "points":
+            d["points"] = [tuple(p) for p in e.points]
     e.points = [tuple(p) for p in d["points"]]
     for f in ("sustain_point", "loop_start_point", "loop_end_point", "enable", "sustain", "loop", "ctl_index", "gain_pct", "velocity"):
         setattr(e, f, d[f])
